@@ -1,3 +1,4 @@
+import CG.Proofs.C10NxTopo
 import CG.Proofs.WFRun
 import CG.Proofs.C02Core
 import CG.Proofs.Basics
@@ -29,3 +30,7 @@ import CG.Proofs.Basics
 #print axioms CG.acyclic_stepRef
 #print axioms CG.acyclic_runRef
 #print axioms CG.isDag_iff
+
+#print axioms CG.NxTopoProofs.nxIsDag_iff
+#print axioms CG.NxTopoProofs.nxIsDag_eq_acyclicB
+#print axioms CG.NxTopoProofs.nxIsDag_total
